@@ -23,6 +23,28 @@ CASES = {
  "module-level dict cache": "_CACHE = {}\ndef g(x):\n    if x not in _CACHE:\n        _CACHE[x] = [x]\n    return _CACHE[x]\ndef f(a, b):\n    return g(1) is g(1.0), g(2) is g(3), len(_CACHE)\n",
  "class-level cache": "class P:\n    _seen = {}\n    def get(self, k):\n        return self._seen.setdefault(k, [k])\ndef f(a, b):\n    return P().get(1) is P().get(True), len(P._seen)\n",
  "cached_property once": "import functools\nclass P:\n    def __init__(self):\n        self.n = 0\n    @functools.cached_property\n    def v(self):\n        self.n += 1\n        return self.n\ndef f(a, b):\n    p = P()\n    return p.v, p.v, p.n, P().v\n",
+ "generator consumed twice": "def g():\n    yield 1\n    yield 2\ndef f(a, b):\n    it = g()\n    return [list(it), list(it), sum(x for x in [1, 2])]\n",
+ "genexp single use / truthiness": "def f(a, b):\n    ge = (x * 2 for x in [])\n    m = map(str, [1, 2])\n    return [bool(ge), list(m), list(m), any(ge)]\n",
+ "partial consumption then resume": "def g():\n    for i in range(5):\n        yield i\ndef f(a, b):\n    it = g()\n    out = []\n    for x in it:\n        if x == 1:\n            break\n    return [next(it), next(it, 'd'), list(it), next(it, 'end')]\n",
+ "zip truncates / iterator reuse": "def f(a, b):\n    z = zip([1, 2, 3], 'ab')\n    first = list(z)\n    return first, list(z), dict(zip('xy', [1, 2, 3]))\n",
+ "iter() on list is fresh, on iterator is itself": "def f(a, b):\n    l = [1, 2, 3]\n    i1 = iter(l); i2 = iter(l)\n    next(i1)\n    j = iter(i1)\n    return next(i2), next(j), next(i1)\n",
+ "late-binding closure": "def f(a, b):\n    fs = []\n    for i in range(3):\n        fs.append(lambda: i)\n    return [g() for g in fs]\n",
+ "mutable default argument": "def g(x, acc=[]):\n    acc.append(x)\n    return acc\ndef f(a, b):\n    g(1)\n    return list(g(2)), len(g(3, []))\n",
+ "class-level mutable shared": "class P:\n    items = []\n    def add(self, x):\n        self.items.append(x)\ndef f(a, b):\n    p, q = P(), P()\n    p.add(1)\n    return q.items, P.items is p.items\n",
+ "negative floor division and modulo": "def f(a, b):\n    return -7 // 2, -7 % 8, 7 // -2, divmod(-1, 8), int(-3.9), round(2.5), round(3.5), round(-0.5)\n",
+ "slices out of range": "def f(a, b):\n    s = b'abcdef'\n    return s[10:], s[-0:], s[-2:], s[:-10], s[2:1], s[5], list(range(3))[-0:]\n",
+ "bytes indexing and str of bytes": "def f(a, b):\n    s = b'AB'\n    return s[0], s[0:1], str(s), f'{s}', s.decode() + 'x', 'A' in 'AB', 65 in s\n",
+ "strip charset / split variants": "def f(a, b):\n    return 'xxabcxx'.strip('x'), 'abcab'.strip('ab'), ' a  b '.split(), ' a  b '.split(' '), 'a.b'.lstrip('a.')\n",
+ "is vs == small ints and None": "def f(a, b):\n    x = None\n    return x is None, x == None, 0 == False, 0 is False, '' == False, [] == False, 1.0 == 1\n",
+ "operator precedence": "def f(a, b):\n    x, y = 6, 3\n    return not x == y, x & y == 2, -x ** 2, x or y and 0, 1 < x < 5, x | 1 == 7\n",
+ "finally overrides return": "def g():\n    try:\n        return 1\n    finally:\n        return 2\ndef f(a, b):\n    return g()\n",
+ "exception variable scope": "def f(a, b):\n    e = 'before'\n    try:\n        int('x')\n    except ValueError as e:\n        pass\n    try:\n        return e\n    except NameError:\n        return 'unbound'\n",
+ "sort stability and key": "def f(a, b):\n    rows = [('b', 1), ('a', 1), ('c', 0)]\n    return sorted(rows, key=lambda r: r[1]), max(rows, key=lambda r: r[1]), min([], default=None)\n",
+ "dict get eager default / setdefault": "def f(a, b):\n    calls = []\n    def mk():\n        calls.append(1)\n        return 0\n    d = {'k': 5}\n    v = d.get('k', mk())\n    w = d.setdefault('k', mk())\n    return v, w, len(calls)\n",
+ "modify list while iterating": "def f(a, b):\n    l = [1, 2, 3, 4]\n    for x in l:\n        if x % 2 == 0:\n            l.remove(x)\n    return l\n",
+ "shallow copy": "import copy\ndef f(a, b):\n    l = [[1], [2]]\n    s = copy.copy(l); d = copy.deepcopy(l); t = list(l)\n    l[0].append(9)\n    return s[0], d[0], t[0]\n",
+ "bool is int / hash eq": "def f(a, b):\n    d = {1: 'a'}\n    d[True] = 'b'\n    d[1.0] = 'c'\n    return d, isinstance(True, int), sum([True, True])\n",
+ "float formatting": "def f(a, b):\n    return f'{0.1 + 0.2}', str(1e16), repr(float('1e22')), '%g' % 1234567.0, f'{2.50:.1f}', f'{1/3:.3g}', int(2**53 + 1.0)\n",
  "cache helper": "import functools\n@functools.cache\ndef g(x):\n    return x * 2\ndef f(a, b):\n    return g(4)\n",
  "reduce": "import functools, operator\ndef f(a, b):\n    return functools.reduce(operator.or_, [1, 2, 4], 0)\n",
  "global counter": "N = 0\ndef f(a, b):\n    global N\n    N += 1\n    return N\n",
